@@ -20,6 +20,7 @@
 import Y0.Lemmas.IdSoundD
 import Y0.Lemmas.IdTopo
 import Y0.Lemmas.IdTopoAnc
+import Y0.Lemmas.IdFuel
 
 namespace Y0
 open IdDsl IdAux MG
@@ -138,5 +139,28 @@ example : coinModel.Compatible (MG.fromEdges [0, 1] [(0, 1)] []) := by
 /-- a valid query on which ID succeeds (line 2 then line 6/1 …): here the one-step case `X = ∅` -/
 example : ValidQuery (MG.fromEdges [0, 1] [(0, 1)] []) [] [1] :=
   ⟨MG.wf_fromEdges _ _ _, ⟨fun v => v, by decide⟩, by decide, by decide, by decide⟩
+
+/-- the napkin graph `W → R → X → Y`, `W ↔ X`, `W ↔ Y` (nodes 0, 1, 2, 3): the F3 witness -/
+def napkinG : MG Name := MG.fromEdges [0, 1, 2, 3] [(0, 1), (1, 2), (2, 3)] [(0, 2), (0, 3)]
+
+example : ValidQuery napkinG [2] [3] :=
+  ⟨MG.wf_fromEdges _ _ _, ⟨fun v => v, by decide⟩, by decide, by decide, by decide⟩
+
+/-- ID succeeds on the napkin query `P(Y | do(X))` (the run goes through lines 3, 7, 2 and 6, the path on which the
+pinned code was wrong), with a topological sorter for which `TopoSound` is proved; so `id_sound` applies to a
+non-trivial run: in every compatible model the returned estimand equals `P(y | do(x))` -/
+example (M : Scm) (hM : M.Compatible napkinG) (σ' σ : Val) :
+    ∃ e, identify checkedTopo napkinG [2] [3] = .ok e ∧
+      den (M.env napkinG) σ' e σ = M.doProb napkinG [2] [3] σ := by
+  have h : ∃ e, identify checkedTopo napkinG [2] [3] = .ok e := ⟨_, identifyF_ok _ 8 _ _ _ _ (by rfl)⟩
+  obtain ⟨e, he⟩ := h
+  exact ⟨e, he, id_sound checkedTopo_sound napkinG [2] [3]
+    ⟨MG.wf_fromEdges _ _ _, ⟨fun v => v, by decide⟩, by decide, by decide, by decide⟩ e he M hM σ' σ⟩
+
+/-- and the estimand is not the pinned code's `P(Y | X)` (a single probability term) -/
+example : (match identifyF checkedTopo 8 napkinG [2] [3] with
+    | .ok (.prob _ _ _) => false
+    | .ok _ => true
+    | .error _ => false) = true := by rfl
 
 end Y0
